@@ -28,7 +28,7 @@ RT=$(mktemp -d /tmp/varrepo-$ID-XXXX)
 rsync -a --exclude .git --exclude cmd /repo/ $RT/
 ( cd $RT && git apply $OUT/patch.diff ) || exit 2
 for s in 1 7; do
-( cd /verif && VERIF_SEED=$s VERIF_REPO=$RT VERIF_NO_EVIDENCE=1 VERIF_KEEP_REPLAYS=1 bin/vcheck $P --wall ${WALL:-45} > $OUT/check.$s.log 2>&1; echo "seed $s check_exit=$? (want 0)" )
+( cd ${VDIR:-/verif} && VERIF_DIR=${VDIR:-/verif} VERIF_SEED=$s VERIF_REPO=$RT VERIF_NO_EVIDENCE=1 VERIF_KEEP_REPLAYS=1 bin/vcheck $P --wall ${WALL:-45} > $OUT/check.$s.log 2>&1; echo "seed $s check_exit=$? (want 0)" )
 grep -E "^violation|^VIOLATION|^KNOWN|vcheck: $P" $OUT/check.$s.log | cut -c1-600 | head -5
 done
 rm -rf $RT
